@@ -451,6 +451,38 @@ pub mod prelude {
         ensures s.len() == 0 ==> #[trigger] from_str_spec::<u16>(s) is Err
     {}
 
+    // std's address parsers reject any text containing a space or a CR (valid texts consist of hex
+    // digits, '.', ':' only)
+    pub open spec fn bytes_no_sp_cr(s: Seq<u8>) -> bool { forall|i: int| 0 <= i < s.len() ==> #[trigger] s[i] != 32u8 && s[i] != 13u8 }
+    #[verifier::external_body]
+    pub broadcast proof fn axiom_ipv4_text_no_sep(s: Seq<u8>)
+        ensures #[trigger] from_str_spec::<Ipv4Addr>(s) is Ok ==> bytes_no_sp_cr(s)
+    {}
+    #[verifier::external_body]
+    pub broadcast proof fn axiom_ipv6_text_no_sep(s: Seq<u8>)
+        ensures #[trigger] from_str_spec::<Ipv6Addr>(s) is Ok ==> bytes_no_sp_cr(s)
+    {}
+
+    /// value of a decimal digit string
+    pub open spec fn dec_value(s: Seq<u8>) -> nat
+        decreases s.len()
+    {
+        if s.len() == 0 { 0 } else { dec_value(s.subrange(0, s.len() - 1)) * 10 + (s[s.len() - 1] - 48u8) as nat }
+    }
+    pub open spec fn is_digit(b: u8) -> bool { 48u8 <= b <= 57u8 }
+    pub open spec fn all_digits(s: Seq<u8>) -> bool { forall|i: int| 0 <= i < s.len() ==> is_digit(#[trigger] s[i]) }
+    /// `u16::from_str`: an optional '+', then one or more decimal digits whose value fits in 16 bits
+    pub open spec fn u16_digits(s: Seq<u8>) -> Seq<u8> {
+        if s.len() > 0 && s[0] == 43u8 { s.subrange(1, s.len() as int) } else { s }
+    }
+    #[verifier::external_body]
+    pub broadcast proof fn axiom_u16_text(s: Seq<u8>)
+        ensures (#[trigger] from_str_spec::<u16>(s)) matches Ok(v)
+                    ==> u16_digits(s).len() >= 1 && all_digits(u16_digits(s)) && dec_value(u16_digits(s)) == v,
+                (u16_digits(s).len() >= 1 && all_digits(u16_digits(s)) && dec_value(u16_digits(s)) <= 65535)
+                    ==> from_str_spec::<u16>(s) is Ok,
+    {}
+
     // Option::filter with a specified predicate
     pub assume_specification<T, P: FnOnce(&T) -> bool>[ Option::<T>::filter ](o: Option<T>, p: P) -> (r: Option<T>)
         requires o matches Some(x) ==> p.requires((&x,))
@@ -523,6 +555,9 @@ pub mod prelude {
         axiom_str_ext_bytes, axiom_str_ext_chars, axiom_str_len_bound, axiom_pat_starts_str, axiom_pat_ends_str,
         axiom_pat_starts_char, axiom_pat_find_char, axiom_cow_deref_str, lemma_first_index_bounds, lemma_first_index_prefix,
         axiom_u16_parse_empty, axiom_slice_len_bound,
+    }
+    pub broadcast group prelude_parse_axioms {
+        axiom_ipv4_text_no_sep, axiom_ipv6_text_no_sep, axiom_u16_text,
     }
     pub broadcast group prelude_utf8_axioms {
         axiom_boundary_ascii, axiom_boundary_after_ascii, axiom_boundary_ends, axiom_cow_str_valid, axiom_str_valid_utf8,
